@@ -9,7 +9,9 @@ _T = ["scalarmult_rc_exact", "scalarmult_rc_fail", "scalarmult_ref10_exact", "sc
       "kx_cross", "kx_cross_spec", "kx_fail", "kx_both_null", "kx_null_alias", "kx_same_buffer", "kx_seed_keypair_spec", "box_seed_keypair_spec", "beforenm_spec", "beforenm_cross"]
 _T2 = ["blocklist_ladder_all", "blocklist_sound_all", "ref10_eq_spec", "impl_agree_spec"]
 THEOREMS = vcore.theorems_in("SodiumModel/Properties/C05.lean", _T, "Sodium.C05") + vcore.theorems_in("SodiumModel/Properties/C05LowOrder.lean", _T2, "Sodium.C05")
+THEOREMS = THEOREMS + vcore.theorems_in("SodiumModel/Properties/C05Ladder.lean", ['ref10_ladder_general', 'ref10_ladder_eq_rfc7748', 'ref10_ladder_clamp', 'clamp_clamp', 'ref10_ladder_unclamped_differs', 'ref10_ladder_length', 'cswap_in_contract', 'ref10_mult_eq', 'ref10_eq_spec_ladder', 'ladder_any_field', 'edwards_to_montgomery_exact', 'ref10_base_exact', 'ref10_base_eq_rfc7748_partial'], "Sodium.C05Ladder")
 IMPORTS = ["SodiumModel.Properties.C05", "SodiumModel.Properties.C05LowOrder"] if THEOREMS else ["SodiumModel.Spec.Curve25519"]
+IMPORTS = IMPORTS + ["SodiumModel.Properties.C05Ladder"]
 TABLES = ['x25519_blocklist_eq']      # Tie B: kernel-checked `table regenerated from the source = model table`
 RULE = ("random (scalar, point) pairs; the low-order / non-canonical u-coordinates (0, 1, the two order-8 points, p-1, p, p+1) with either top bit; u in p-k..p+k and "
         "2^255-k..2^255-1; scalars covering all 32 clamp-bit patterns; limb-structured field elements (all-ones 51-bit and 25.5-bit limbs); key exchange: both sides computed "
